@@ -238,6 +238,36 @@ func runC10(c *core.Ctx) {
 			c.Call("layout(constructed)", enc, func() { check("keys_and_cert.NewKeysAndCert", ck) })
 			c.Bucket("layout-constructed")
 		}
+		// a padding argument of the wrong length (nil, empty, one byte short, one byte long): the
+		// constructor refuses, or the padding the value holds is exactly the bytes between the keys
+		// of its own serialisation
+		if kc, ok, err := lib.BuildKeyCert(m.Cert); ok && err == nil && kc != nil {
+			pkk, e1 := lib.CryptoKeyOf(cr, m.CryptoKey())
+			spkk, e2 := lib.SigningKeyOf(sig, m.SigningKey())
+			good := m.Padding()
+			if e1 == nil && e2 == nil {
+				for vi, bad := range [][]byte{nil, {}, good[:max(len(good)-1, 0)], append(append([]byte{}, good...), 0x55)} {
+					if len(bad) == len(good) {
+						continue
+					}
+					var bk *keys_and_cert.KeysAndCert
+					var berr error
+					if p, _, _ := c.Call("keys_and_cert.NewKeysAndCert(padding of wrong length)", enc, func() { bk, berr = keys_and_cert.NewKeysAndCert(kc, pkk, bad, spkk) }); p {
+						continue
+					}
+					c.Eval(1)
+					if berr != nil || bk == nil {
+						c.Bucket("wrong-length-padding-refused")
+						continue
+					}
+					bb, err := bk.Bytes()
+					if err != nil || len(bb) < 384 || !bytes.Equal(bk.Padding, bb[cpk:384-spk]) {
+						s2 := gen.Shape{"padding_variant": []string{"nil", "empty", "one-short", "one-long"}[vi], "sig": sig, "crypto": cr}
+						c.Violate("keys_and_cert.NewKeysAndCert", "padding-not-between-keys", s2, enc, fmt.Sprintf("constructor accepted a %d-byte padding where %d bytes lie between the keys; the value holds %d padding bytes", len(bad), len(good), len(bk.Padding)))
+					}
+				}
+			}
+		}
 		// the fixed-layout readers: whatever they return without error obeys the same layout
 		for _, fr := range []struct {
 			site string
